@@ -12,8 +12,8 @@ TOOLS_TRUSTED = [
     "Gen/Consts.v (target sigil '@') regenerated from /repo by harness/cmd/genconsts",
     "branch patterns are JSON data (their rendering into a label cannot fail); encoding/json, yaml marshalling assumed",
     "Go map iteration order = any order of the node list (C20_analysis_order_independent, C20_render_order_independent)",
-    "text level: Model/ToolsText.v (dot_id, mermaid_text, mermaid_nid) is hand-written after dotID / mermaidText / the n%d ids; "
-    "tied to the Go code by the run 'toolstext': the identifier and the label text are cut out of the output of tools.Dot / "
+    "text level: Model/ToolsText.v (dot_id, mermaid_text, mermaid_nid, dot_html / dot_label_name) is hand-written after dotID / mermaidText / the n%d ids / dotHTML; "
+    "tied to the Go code by the run 'toolstext': the identifier, the Mermaid label text and the text inside label=<...> are cut out of the output of tools.Dot / "
     "tools.Mermaid on one-node and one-branch specs by taking a calibrated frame away from both ends (harness/toolstext.go; no "
     "parser of the harness reads the text that is compared); names that are not printable ASCII reach Coq as lists of bytes (sb)",
     "strings.NewReplacer with one-byte old strings replaces byte by byte (strings/replace.go, byteStringReplacer); the reading rules "
@@ -34,11 +34,14 @@ PROPS = {
              "thorough adds the exhaustive small scope (nodes among {start,a}, <=2 branches over 5 targets, every action kind). "
              "distinct = distinct projected node graphs; non-trivial = the graph has a target that is not a node, a native action, "
              "a null node or an unreachable node other than start. "
-             "Text level (run toolstext): node names of any bytes - a corpus of 118 (quotes, runs of backslashes, names that look like "
+             "Text level (run toolstext): node names of any bytes - a corpus of about 125 (quotes, runs of backslashes, names that look like "
              "escapes or like statements, '#', entity codes, angle brackets, '&', newlines, tabs, NUL, UTF-8, invalid UTF-8, the empty "
-             "name), every name over the bytes {backslash, quote, '#', ';', 'a'} up to length 3 (thorough: 5), generated names (fragments, "
-             "only-escaped bytes, random bytes), each as a node name and as a branch target that is not a node; 121 Mermaid ids. "
-             "non-trivial = the name holds a quote, a backslash or '#'.",
+             "name), every name over the bytes {backslash, quote, '#', ';', 'a'} up to length 3 (thorough: 5) and over "
+             "{'&', '<', '>', ';', 'a'} up to length 3 (thorough: 4), generated names (fragments, only-escaped bytes, random bytes), "
+             "each as a node name, as a branch target that is not a node and (1..40 bytes) as a doc string; for each the Graphviz identifier, the Mermaid label text and the text inside the "
+             "HTML-like Graphviz label (dotHTML, repair D55) are cut out; 121 Mermaid ids. "
+             "non-trivial = the name holds a quote, a backslash or '#' (label cases: '&', '<' or '>'). LB (label texts that do not "
+             "end where Dot ends them) is 0 since D55.",
         trusted=TOOLS_TRUSTED,
         assumptions=["statement level (run tools): node names and targets are printable ASCII (other specs are skipped and counted); "
                      "text level (run toolstext): any bytes",
@@ -52,7 +55,7 @@ PROPS = {
                    n=dict(quick=600, thorough=6000), shard=500, opts_thorough=dict(enum="5"),
                    evals=dict(M="toolstext_mismatches", V="toolstext_violations", NT="toolstext_nontrivial",
                               VD="toolstext_dot_violations", VM="toolstext_mer_violations", VN="toolstext_nid_violations",
-                              LB="toolstext_label_breaks"),
+                              VL="toolstext_label_violations", LB="toolstext_label_breaks"),
                    counts=("NT", "LB"))],
     ),
 }
